@@ -830,6 +830,8 @@ func (env *SpecEnv) evalCall(e *SExpr) *Value {
 				specFail("%s(\"type name\", ...)", name)
 			}
 			tn := e.Args[0].Name
+			isSlice := strings.HasPrefix(tn, "[]") // typeTag("[]T"): a slice type
+			tn = strings.TrimPrefix(tn, "[]")
 			isPtr := strings.HasPrefix(tn, "*")
 			tn = strings.TrimPrefix(tn, "*")
 			var ty types.Type
@@ -843,6 +845,9 @@ func (env *SpecEnv) evalCall(e *SExpr) *Value {
 			}
 			if isPtr {
 				ty = types.NewPointer(ty)
+			}
+			if isSlice {
+				ty = types.NewSlice(ty)
 			}
 			if name == "typeTag" {
 				return scalar(typeTag(ty), types.Typ[types.Int])
